@@ -4,6 +4,7 @@ import (
 	"fmt"
 	"strings"
 	"sync"
+	"time"
 
 	"github.com/uhppoted/uhppote-core/uhppote"
 
@@ -193,6 +194,7 @@ func c01(c *Ctx) {
 		}(g)
 	}
 	wg.Wait()
+	c01Shared(c)
 
 	// ---- per-field sweeps, partitioned over batches
 	r := c.Rng("sweep")
@@ -336,4 +338,79 @@ func c01(c *Ctx) {
 		}
 	}
 	c.Res.Note("sweeps", "u8 fields: all 256 values; HH:mm fields: all 1441 values; u32 fields: bit walks; PIN: all 10^6 (thorough) or every 97th; ports: all 65535 (thorough) or every 13th; date fields: every day 0001-01-02..9999-12-31 (thorough) or six whole years")
+}
+
+// c01Shared: several goroutines use ONE client at the same time while the (in-memory) transport behaves like the real
+// one on a fixed bind port - calls queue on a guard and the request slice is read when a call gets its turn, which can be
+// long after the library built it. Every call carries a unique serial number; when all calls have returned, the bytes the
+// transport read for each serial number must be the reference encoding of that call, exactly once.
+func c01Shared(c *Ctx) {
+	rounds := c.N(60, 600)
+	G := 6
+	K := 8
+	ops := reqOps()
+	for round := 0; round < rounds; round++ {
+		u, d := mkMemClient(ClientCfg{Bind: "0.0.0.0:54321", Broadcast: "192.168.1.255:60000"})
+		d.Serialize = true
+		if round%3 == 0 {
+			d.Hold = 50 * time.Microsecond
+		}
+		type call struct {
+			op     *rm.Op
+			serial uint32
+			args   rm.Vals
+			err    string
+		}
+		calls := make([][]call, G)
+		var wg sync.WaitGroup
+		gate := make(chan struct{})
+		for g := 0; g < G; g++ {
+			wg.Add(1)
+			go func(g int) {
+				defer wg.Done()
+				rr := gen.New(c.Seed, fmt.Sprintf("C01/shared/%d/%d", round, g), c.Batch)
+				<-gate
+				for k := 0; k < K; k++ {
+					op := ops[rr.Pick(len(ops))]
+					a, p := rr.Args(op)
+					aux := toAux(p)
+					fixArgs(op, a, aux)
+					serial := uint32(0x70000000) + uint32(round)<<12 + uint32(g)<<6 + uint32(k) + 1
+					out, _ := adapter.SafeCall(u, op.Name, serial, a, aux)
+					calls[g] = append(calls[g], call{op, serial, a, out.Err})
+				}
+			}(g)
+		}
+		close(gate)
+		wg.Wait()
+		atSend := map[uint32][][]byte{}
+		for _, inv := range d.Invocations() {
+			if len(inv.AtSend) >= 8 {
+				s := uint32(inv.AtSend[4]) | uint32(inv.AtSend[5])<<8 | uint32(inv.AtSend[6])<<16 | uint32(inv.AtSend[7])<<24
+				atSend[s] = append(atSend[s], inv.AtSend)
+			}
+		}
+		for g := range calls {
+			for _, cl := range calls[g] {
+				c.Res.Eval(1)
+				c.Res.Count("shared-client:calls", 1)
+				c.Res.DistinctKey("shared", cl.op.Name, g)
+				want := cl.op.Request(cl.serial, cl.args)
+				got := atSend[cl.serial]
+				w := map[string]any{"op": cl.op.Name, "serial": cl.serial, "args": cl.args.String(), "goroutines": G, "mode": "one client shared by several goroutines, transport reads the request when the call gets its turn"}
+				if len(got) == 0 && cl.err != "" {
+					c.Res.Count("shared-client:failed-without-sending(not judged here)", 1)
+					continue
+				}
+				if len(got) != 1 {
+					c.Res.Violate("C01:shared-client:count", fmt.Sprintf("%s: the transport sent %d requests carrying this call's serial number %d (expected exactly 1) - %d goroutines were using the client at the same time", cl.op.Name, len(got), cl.serial, G), w, int64(round))
+					continue
+				}
+				if string(got[0]) != string(want) {
+					w["expected"], w["got"] = wk.Hex(want), wk.Hex(got[0])
+					c.Res.Violate("C01:shared-client:bytes", fmt.Sprintf("%s: the bytes the transport sent for this call differ from its encoding at offsets %v - %d goroutines were using the client at the same time", cl.op.Name, diffOffsets(want, got[0]), G), w, int64(round))
+				}
+			}
+		}
+	}
 }
